@@ -20,7 +20,7 @@ TEMPLATE = """SETUP
 - Run the relevant existing tests as: cd {wt} && PYTHONPATH={wt}/python /venv/bin/python -m pytest -q -p no:cacheprovider -x tests/<relevant files>   (the full suite takes 35+ minutes and the machine is shared - run only the test files that touch the code you change, plus any test that imports it; find them with grep; never run the whole suite).
 
 TASK
-Produce THREE independent, different changes (mutations) to the library source (python/numqi only; never edit tests) each of which BREAKS the property stated below, while the package still imports and ALL existing tests that exercise the changed code still pass. The changes must be realistic bugs a maintainer could plausibly introduce (a refactor slip, an off-by-one, a wrong index/axis/sign, a dropped special case, a stale cache, a wrong branch condition, a "performance" shortcut, a changed default), NOT ones that ordinary use or the existing tests would expose at once. This is the THIRD round: the obvious places have been used up (list below). Look for what is left: code paths selected by optional or rarely used arguments, the torch branch vs the numpy branch, float32/complex64 or integer inputs, sizes at the edge of the documented domain (smallest and largest), inputs with special structure (degenerate spectra, repeated entries, zeros, already-normalised or unnormalised), interactions between two public functions (output of one fed to another), behaviour that depends on what was called before in the same process (caches, module-level state, objects reused after being reconfigured), and helper functions shared by several public functions. Read the tests first so you know what they pin down, and aim for what they do not.
+Produce THREE independent, different changes (mutations) to the library source (python/numqi only; never edit tests) each of which BREAKS the property stated below, while the package still imports and ALL existing tests that exercise the changed code still pass. The changes must be realistic bugs a maintainer could plausibly introduce (a refactor slip, an off-by-one, a wrong index/axis/sign, a dropped special case, a stale cache, a wrong branch condition, a "performance" shortcut, a changed default), NOT ones that ordinary use or the existing tests would expose at once. This is round {rnd} of this exercise: the obvious places have been used up (see the long list below, read it first). Look for what is left: code paths selected by optional or rarely used arguments, the torch branch vs the numpy branch, float32/complex64 or integer inputs, sizes at the edge of the documented domain (smallest and largest), inputs with special structure (degenerate spectra, repeated entries, zeros, already-normalised or unnormalised), interactions between two public functions (output of one fed to another), behaviour that depends on what was called before in the same process (caches, module-level state, objects reused after being reconfigured), and helper functions shared by several public functions. Read the tests first so you know what they pin down, and aim for what they do not.
 
 DELIVERABLES (for change k = 1, 2, 3) in {wt}/out/k/ :
 - patch.diff : output of `git diff` for the source change only (must apply with `git apply` to a clean checkout of the same commit).
@@ -59,7 +59,7 @@ def main():
             s = ' '.join(str(m.get('summary', '')).split())
             n = ' '.join(str(m.get('needs_to_manifest', '')).split())
             tried.append(f'- {s[:420]} [trigger: {n[:200]}]')
-        text = TEMPLATE.format(wt=wt, pid=pid, title=p['title'], statement=p['statement'], domain=p['quantifier']['text'],
+        text = TEMPLATE.format(rnd=rnd, wt=wt, pid=pid, title=p['title'], statement=p['statement'], domain=p['quantifier']['text'],
                                observe='; '.join(p['anchors']['observe_at']), files=', '.join(p['anchors']['files']), tried='\n'.join(tried) or '- (none)')
         open(os.path.join(wt, 'TASK.md'), 'w').write(text)
         open(f'/root/agent_tasks/{pid}_r{rnd}.md', 'w').write(text)
